@@ -80,6 +80,10 @@ def cfgs_tier1():
     yield {"imm": False}
     yield {"size": 0}
     yield {"size": None}
+    yield {"size": None, "closure": False}
+    yield {"size": None, "mode": "unack", "closure": False}
+    yield {"size": None, "mode": "unack", "closure": True}
+    yield {"size": 0, "closure": False}
     yield {"size": 5}
     yield {"limit": 1}
     yield {"limit": 3, "imm": False}
